@@ -122,15 +122,14 @@ theorem check_good (f ch sr : Int) (hi : Internal f) (h : check f ch sr = true)
 /-- KF-C10-rate0: a sample rate of 0 passes `sf_format_check` but `validate_sfinfo` (or a division in
     the HTK / SDS / VOC header writer) stops the open — except where the container repairs the rate -/
 def KF.rateZero (f sr : Int) : Prop := sr = 0 ∧ ¬ rateRepaired f
-/-- KF-C10-alac8 (DESIGN §8 #25): CAF/ALAC with more than 8 channels -/
-def KF.alacOver8 (f ch : Int) : Prop := alacOverrun f ch = true
+-- KF-C10-alac8 (DESIGN §8 #25, CAF/ALAC with more than 8 channels) is fixed in /repo by 0aa127c + e9742d9:
+-- it is no longer an excluded class; `alac_over8_rejected` below is the regression statement.
 /-- KF-C10-vox-odd (DESIGN §8 #3): OKI/VOX reports an odd item count rounded up -/
 def KF.voxOdd (f n : Int) : Prop := container f = RAW ∧ codec f = VOX_ADPCM ∧ n % 2 = 1
 /-- KF-C10-ircam-rate (DESIGN §8 #21): IRCAM keeps the rate as float32; ≥ 2^31 − 64 comes back as a negative int -/
 def KF.ircamRate (f sr : Int) : Prop := ircamRateLost f sr = true
 
 instance (f sr : Int) : Decidable (KF.rateZero f sr) := by unfold KF.rateZero; infer_instance
-instance (f ch : Int) : Decidable (KF.alacOver8 f ch) := by unfold KF.alacOver8; infer_instance
 instance (f n : Int) : Decidable (KF.voxOdd f n) := by unfold KF.voxOdd; infer_instance
 instance (f sr : Int) : Decidable (KF.ircamRate f sr) := by unfold KF.ircamRate; infer_instance
 
@@ -199,16 +198,33 @@ theorem reopenEndian_cases (f e : Int) (he : e = 0 ∨ e = E_LITTLE ∨ e = E_BI
 def C10_full : Prop :=
   ∀ f ch sr n : Int, Enumerated f → 0 < n → (check f ch sr = true ↔ roundTrips f ch sr n = true)
 
-/-- It fails today (DESIGN §8 #25): CAF / ALAC-16 with 9 channels passes the check, opens, takes the
-    frames and closes with 0, but leaves its temp file behind and produces a file that does not re-open. -/
-theorem alac9_witness : ∃ m ∈ majorWords, ∃ s ∈ subtypeWords,
-    Enumerated (m + s) ∧ check (m + s) 9 44100 = true ∧ roundTrips (m + s) 9 44100 3 = false := by decide
+/-- It fails today: some enumerated format passes the check at 0 Hz and cannot be opened (KF-C10-rate0);
+    the IRCAM rate class (`ircam_witness`) is a second, independent reason. -/
+theorem rate0_roundtrip_witness : ∃ m ∈ majorWords, ∃ s ∈ subtypeWords,
+    Enumerated (m + s) ∧ check (m + s) 1 0 = true ∧ roundTrips (m + s) 1 0 3 = false := by decide
+
+theorem ircam_witness : ∃ m ∈ majorWords, ∃ s ∈ subtypeWords,
+    Enumerated (m + s) ∧ check (m + s) 1 2147483647 = true ∧ roundTrips (m + s) 1 2147483647 4 = false := by decide
 
 theorem C10_fails : ¬ C10_full := by
   intro h
-  obtain ⟨m, _, s, _, he, h1, h2⟩ := alac9_witness
-  have := (h (m + s) 9 44100 3 he (by decide)).1 h1
+  obtain ⟨m, _, s, _, he, h1, h2⟩ := rate0_roundtrip_witness
+  have := (h (m + s) 1 0 3 he (by decide)).1 h1
   rw [h2] at this; exact absurd this (by decide)
+
+/-- regression statement for the repaired DESIGN §8 #25: CAF/ALAC with more than 8 channels is refused by the
+    check, hence (`check_false_rejected`) by sf_open -/
+theorem alac_over8_rejected (f ch sr : Int) (hc : container f = CAF) (hs : isAlac (codec f) = true) (h : ch > 8) :
+    check f ch sr = false ∧ openWrite f ch sr ≠ .ok := by
+  have hcf : check f ch sr = false := by
+    unfold isAlac at hs
+    unfold check
+    simp only [hc]
+    simp at hs
+    have h8 : ¬ ch ≤ 8 := by omega
+    rcases hs with hs | hs | hs | hs <;>
+      simp [hs, h8, CAF, WAV, WAVEX, AIFF, AU, ALAC_16, ALAC_20, ALAC_24, ALAC_32, PCM_S8, PCM_16, PCM_24, PCM_32, ULAW, ALAW, FLOAT, DOUBLE]
+  exact ⟨hcf, check_false_rejected f ch sr hcf⟩
 
 theorem roundTrips_opened (f ch sr n : Int) (h : roundTrips f ch sr n = true) : openWrite f ch sr = .ok := by
   by_cases ho : openWrite f ch sr = .ok
@@ -216,7 +232,7 @@ theorem roundTrips_opened (f ch sr n : Int) (h : roundTrips f ch sr n = true) : 
   · unfold roundTrips outcome at h; simp [ho] at h
 
 theorem C10_partial (f ch sr n : Int) (he : Enumerated f) (hn : 0 < n)
-    (k1 : ¬ KF.rateZero f sr) (k2 : ¬ KF.alacOver8 f ch) (k3 : ¬ KF.voxOdd f n) (k4 : ¬ KF.ircamRate f sr) :
+    (k1 : ¬ KF.rateZero f sr) (k3 : ¬ KF.voxOdd f n) (k4 : ¬ KF.ircamRate f sr) :
     check f ch sr = true ↔ roundTrips f ch sr n = true := by
   constructor
   · intro h
@@ -237,17 +253,13 @@ theorem C10_partial (f ch sr n : Int) (he : Enumerated f) (hn : 0 < n)
       · have : ¬ n % 2 = 1 := fun h1 => k3 ⟨hv.1, hv.2, h1⟩
         simp [hv]; omega
       · simp [hv]
-    have h2 : alacOverrun f ch = false := by
-      cases hx : alacOverrun f ch
-      · rfl
-      · exact absurd hx k2
     have h4 : ircamRateLost f sr = false := by
       cases hx : ircamRateLost f sr
       · rfl
       · exact absurd hx k4
     have hre := container_rebuilt f _ (reopenEndian_cases f _ ge)
     unfold roundTrips outcome reopen tmpLeft sameEncoding
-    simp [ha.1, hw, h2, h4, hre.1, hre.2, gch]
+    simp [ha.1, hw, h4, hre.1, hre.2, gch]
   · intro h
     cases hc : check f ch sr
     · exact absurd (roundTrips_opened f ch sr n h) (check_false_rejected f ch sr hc)
@@ -255,17 +267,15 @@ theorem C10_partial (f ch sr n : Int) (he : Enumerated f) (hn : 0 < n)
 
 /-- non-vacuity of `C10_partial`: its hypotheses hold on ordinary points, both sides occur -/
 example :
-    ∃ m ∈ majorWords, ∃ s ∈ subtypeWords, Enumerated (m + s) ∧ ¬ KF.rateZero (m + s) 8000 ∧ ¬ KF.alacOver8 (m + s) 1
-      ∧ ¬ KF.alacOver8 (m + s) 1025 ∧ ¬ KF.voxOdd (m + s) 3 ∧ ¬ KF.ircamRate (m + s) 8000
+    ∃ m ∈ majorWords, ∃ s ∈ subtypeWords, Enumerated (m + s) ∧ ¬ KF.rateZero (m + s) 8000
+      ∧ ¬ KF.voxOdd (m + s) 3 ∧ ¬ KF.ircamRate (m + s) 8000
       ∧ roundTrips (m + s) 1 8000 3 = true ∧ roundTrips (m + s) 1025 8000 3 = false := by decide
 
 /-- every excluded point with check TRUE really fails (the excluded region is not wider than the defects);
     the rate-0 class is covered by `check_iff_writable_fails` and the exhaustive grid -/
 theorem kf_exact (f ch sr n : Int) (hn : 0 < n) (h : check f ch sr = true)
-    (hk : KF.alacOver8 f ch ∨ KF.voxOdd f n ∨ KF.ircamRate f sr) : roundTrips f ch sr n = false := by
-  rcases hk with hk | hk | hk
-  · unfold KF.alacOver8 at hk
-    unfold roundTrips outcome tmpLeft; simp [hk]
+    (hk : KF.voxOdd f n ∨ KF.ircamRate f sr) : roundTrips f ch sr n = false := by
+  rcases hk with hk | hk
   · obtain ⟨h1, h2, h3⟩ := hk
     unfold roundTrips outcome writeRet
     by_cases hi : installed f ch sr = true
